@@ -407,3 +407,45 @@ def run(prog, rep, with_ctor=True):
         run_ctor(prog, rep, rule)
         run_file_open(prog, rep, rule)
     run_check_header(prog, rep)
+
+
+def run_write_free(prog, rep):
+    """Opening an existing file writes only what is missing: every mutating call reachable
+    from the constructor's open branch is dominated by an absence test of what it writes."""
+    from ..sem import Sem
+    from .r_err import MUTATING
+    sem = Sem(prog)
+    rule = rep.rule('R-WFREE', 'open path of the constructor writes nothing that already exists (absence test dominates each write)', floor=4)
+    ctor = [c for c in prog.fns(FH + '::FileHDF5') if 'nix::FileMode' in c.sig][0]
+    # functions called by the constructor on the open branch (from the abstract run)
+    it = HdrInterp(prog, inline_names=('nix::hdf5::map_file_mode',))
+    res = it.enumerate(ctor, this='THIS', args=[('name',), ('e', 'nix::FileMode::ReadWrite'), ('e', 'nix::Compression::None'), ('e', 'nix::OpenFlags::None')])
+    called = set()
+    for assign, out, log, fields in res:
+        if assign.get(('fileExists',)):
+            called.update(l[0] for l in log)
+    for nm in sorted(called):
+        for f in prog.fns('%s::%s' % (FH, nm)):
+            for c in f.calls(name='setAttr'):
+                k = str_arg(real_args(c)[0])
+                facts = sem.facts_at(f, c.id)
+                okf = any(t[:2] == ('m', 'hasAttr') and t[-1] == ('k', k) and pol is False for (t, pol) in facts)
+                rule.check(okf, '%s|setAttr|%s' % (f.q, k), rep.where(c), f.q,
+                           'setAttr("%s") only under !hasAttr("%s")' % (k, k),
+                           'setAttr("%s") on the open path is not guarded by an absence test: a ReadWrite open would overwrite it and a ReadOnly open would throw' % k)
+            for c in f.calls():
+                if c.callee.get('name', '').startswith('force') and c.callee.get('cls') == FH:
+                    rule.bad('%s|%s' % (f.q, c.callee['name']), rep.where(c), f.q, 'force* variant reachable from the open path')
+    og = prog.fn('nix::hdf5::H5Group::openGroup')
+    for c in og.calls():
+        if MUTATING.match(c.callee.get('name') or ''):
+            facts = sem.facts_at(og, c.id)
+            no_group = any(t[:2] == ('m', 'hasGroup') and pol is False for (t, pol) in facts)
+            create = any(t[0] == 'v' and t[2] == 'create' and pol is True for (t, pol) in facts)
+            rule.check(no_group and create, '%s|%s' % (og.q, c.callee['name']), rep.where(c), og.q,
+                       '%s only under !hasGroup(name) && create' % c.callee['name'],
+                       '%s in openGroup is not guarded by !hasGroup(name) && create' % c.callee['name'])
+    orr = prog.fn(FH + '::openRoot')
+    rule.check(not any(MUTATING.match(c.callee.get('name') or '') for c in orr.calls()), '%s|no-write' % orr.q, rep.where(orr), orr.q,
+               'openRoot performs no mutating HDF5 call')
+    return rule
